@@ -11,7 +11,7 @@ From Coq Require Import String List ZArith Strings.Byte Bool.
 From Verif Require Import Base.Wire TaxId.Common TaxId.Regimes TaxId.Spec TaxId.CommonProofs TaxId.CheckProofs
   TaxId.Mod11Proofs TaxId.PTProofs TaxId.ELProofs TaxId.COProofs TaxId.BRProofs TaxId.Mod97Proofs
   TaxId.LuhnProofs TaxId.ESProofs TaxId.GBProofs TaxId.NLProofs TaxId.DEProofs TaxId.INProofs TaxId.NormProofs
-  TaxId.SpecProofs.
+  TaxId.SpecProofs TaxId.Spec2Proofs.
 Import ListNotations.
 Open Scope Z_scope.
 
@@ -436,6 +436,22 @@ Print Assumptions BE_accepts_exactly_the_published_rule.
 Theorem NL_accepts_exactly_the_published_rule c : valid_NL c = true <-> c = [] \/ Spec_NL c.
 Proof. exact (valid_NL_iff_spec c). Qed.
 Print Assumptions NL_accepts_exactly_the_published_rule.
+
+Theorem AT_accepts_exactly_the_published_rule c : valid_AT c = true <-> c = [] \/ Spec_AT c.
+Proof. exact (valid_AT_iff_spec c). Qed.
+Print Assumptions AT_accepts_exactly_the_published_rule.
+
+Theorem DE_accepts_exactly_the_published_rule c : valid_DE c = true <-> c = [] \/ Spec_DE c.
+Proof. exact (valid_DE_iff_spec c). Qed.
+Print Assumptions DE_accepts_exactly_the_published_rule.
+
+Theorem CO_accepts_exactly_the_published_rule c : valid_CO c = true <-> c = [] \/ Spec_CO c.
+Proof. exact (valid_CO_iff_spec c). Qed.
+Print Assumptions CO_accepts_exactly_the_published_rule.
+
+Theorem BR_accepts_exactly_the_published_rule c : valid_BR c = true <-> c = [] \/ Spec_BR c.
+Proof. exact (valid_BR_iff_spec c). Qed.
+Print Assumptions BR_accepts_exactly_the_published_rule.
 
 (* GB (9 digits) *)
 Theorem GB_accepts_exactly_the_published_rule c :
